@@ -95,6 +95,34 @@ CHECKS = {
              'receives, receiver credits, and the refusal clause under the removed-external-sector fault.',
         note='exchange-rate paths keep inverted rates >= 5 percent apart',
         ref='DESIGN.md 5/C07'),
+    'C05': dict(
+        technique='deterministic simulation: seeded construction histories with name requests at seeded points and '
+                  'embedding sites; independent parse of the final text + valuation equality against sector-local forms',
+        text='The point in the construction history at which a name is requested (placeholder vs canonical) and the '
+             'place it is later embedded are the schedule dimension; the oracle inspects the emitted system only.',
+        note='canonical names computed from the op list; independent parser of documented line forms',
+        ref='DESIGN.md 5/C05'),
+    'C08': dict(
+        technique='deterministic simulation: seeded linear extensions of the declaration partial order vs canonical '
+                  'order twin; trajectory comparison with tight-tolerance confirmation',
+        text='Partial-order schedule search: the same program executed in a seeded dependency-respecting order and in '
+             'canonical order must give the same solution.',
+        note='dependencies derived from handles used by each op; country declarations keep their order',
+        ref='DESIGN.md 5/C08'),
+    'C09': dict(
+        technique='deterministic simulation: bundled builders advanced in lock-step with closed-form G&L recursions '
+                  '(reference model), seeded shock timing and parameters on/off the 4-decimal grid',
+        text='Trajectory refinement of a time-stepped machine against a small executable reference model; what is '
+             'searched is the timing of shocks relative to lagged terms and the parameter grid. Thinnest fit of this family.',
+        note='closed forms per G&L ch.3-4; tolerance 1e-12; relative bound 1e-8',
+        ref='DESIGN.md 5/C09'),
+    'C18': dict(
+        technique='deterministic simulation: renaming twin and co-hosting twin (2-3 economies in one model vs each '
+                  'alone) over seeded economies; zone-isolation check on the final text',
+        text='Non-interference between economies hosted in one model and invariance under injective renaming, decided '
+             'by twin runs of seeded programs.',
+        note='government built-in DEM_GOOD/PRIM_BAL excluded when the good is renamed (no constructor parameter)',
+        ref='DESIGN.md 5/C18'),
 }
 
 NOT_APPLICABLE = [
